@@ -123,6 +123,10 @@ static Value eval_statement(ASTNode *stmt, Environment *env);
  * one of its arms leaves the function); consumed by that evaluation, so nested matches and matches
  * in callees are judged on their own */
 static ASTNode *g_match_statement = NULL;
+
+/* nesting depth of user-function calls being evaluated (the VM's limit is 1024 frames) */
+#define EVAL_MAX_CALL_DEPTH 1024
+static int g_eval_call_depth = 0;
 static Value create_dyn_array(DynArray *arr);
 
 static DynArray* eval_dyn_array_binop(DynArray *a, DynArray *b, TokenType op);
@@ -3590,6 +3594,13 @@ static Value eval_call(ASTNode *node, Environment *env) {
             param_names[i] = func->params[i].name;
         }
     }
+    /* Each call nests several C frames: stop, as the VM does at its frame limit, before the C
+     * stack does (a shadow test recursing ~1,150 deep crashed the compiler with SIGSEGV) */
+    if (++g_eval_call_depth > EVAL_MAX_CALL_DEPTH) {
+        fprintf(stderr, "Error: Call stack overflow in shadow test evaluation (function '%s', more than %d nested calls)\n",
+                name, EVAL_MAX_CALL_DEPTH);
+        exit(1);
+    }
     tracing_push_call(name);
     trace_function_call(name, args, node->as.call.arg_count, param_names, 
                         node->line, node->column);
@@ -3633,6 +3644,7 @@ static Value eval_call(ASTNode *node, Environment *env) {
 
     /* Pop call stack */
     tracing_pop_call();
+    g_eval_call_depth--;
 
     /*
      * Make a copy of the result BEFORE cleaning up parameters.
